@@ -387,7 +387,7 @@ def _check(plan, ctx):
         elif op in TRANSFORM:
             try:
                 with contextlib.redirect_stdout(io.StringIO()):
-                    result, rnames = _transform(op, data, other, s, names, n)
+                    result, rnames = _transform(op, data, other, s, names, n, z=pool[(s["i"] + s["j"] + s["a"]) % len(pool)][0])
             except _Skip:
                 continue
             except Violation:
@@ -428,7 +428,7 @@ class _Skip(Exception):
     pass
 
 
-def _transform(op, x, y, s, names, n):
+def _transform(op, x, y, s, names, n, z=None):
     a = s["a"]
     first = names[0] if names else None
     if op in ("copy", "deepcopy"):
@@ -436,7 +436,15 @@ def _transform(op, x, y, s, names, n):
     if op == "rbind":
         return x.rbind(y), None
     if op in ("cbind", "update"):
-        out = x.cbind(y) if op == "cbind" else x.update(y)
+        if op == "cbind" and z is not None and a % 2:
+            # several frames bound at once, now and then onto a receiver without columns: the bound frames then have to
+            # agree among themselves (equal lengths, or one row to broadcast)
+            recv = di.DataFrame() if a % 4 == 3 else x
+            out = recv.cbind(y, z)
+            if recv is not x:
+                return out, None
+        else:
+            out = x.cbind(y) if op == "cbind" else x.update(y)
         # an operand whose row count is neither nrow nor 1 must be rejected when it contributes a column;
         # whatever happens, the receiver's own columns are never broadcast to someone else's length
         if names and out.nrow != n and any(c in x and len(dict.__getitem__(out, c)) != n for c in dict.keys(out)):
